@@ -2812,6 +2812,13 @@ class Path(Parameter):
 
         return state
 
+    def __copy__(self):
+        # copy.copy() would go through __getstate__ and lose the
+        # search_paths, e.g. on the per-instance copy of this Parameter
+        new = type(self).__new__(type(self))
+        new.__setstate__(Parameter.__getstate__(self))
+        return new
+
 
 
 class Filename(Path):
